@@ -686,6 +686,14 @@ func (n *node) replayLog(shardID uint64, replicaID uint64) (bool, error) {
 	if hasRaftState {
 		plog.Infof("%s logdb first entry %d size %d commit %d term %d",
 			n.id(), rs.FirstIndex, rs.EntryCount, rs.State.Commit, rs.State.Term)
+		if rs.State.Commit < ss.Index {
+			// committed entries can be applied, and thus be covered by a snapshot
+			// recorded in the LogDB, before the update carrying the new commit
+			// index is persisted (fast apply). after a crash in between, the
+			// persisted commit index is behind the recorded snapshot, everything
+			// covered by that snapshot is known to be committed.
+			rs.State.Commit = ss.Index
+		}
 		n.logReader.SetState(rs.State)
 	}
 	n.logReader.SetRange(rs.FirstIndex, rs.EntryCount)
